@@ -201,12 +201,16 @@ def kv(line):
 def run(ctx):
     rng, cov = ctx.rng, ctx.coverage
     meta13, err13 = vlib.regen_extracted("C13")       # Copy proofs import the C13 pipeline (typed indexer fact)
+    meta12, err12 = vlib.regen_extracted("C12")       # where copy's "finding needed blobs" walk starts
     r = vlib.proof_stage(ctx)
     if err13:
         r["ok"] = False; r["failures"].append("fact extraction (C13: Indexer.indexed element type) failed: " + err13)
-    cov["source_facts"] = {"C13": meta13}
+    if err12:
+        r["ok"] = False; r["failures"].append("fact extraction (C12: starting set of copy's tree walk) failed: " + err12)
+    cov["source_facts"] = {"C13": meta13, "C12": meta12}
     cov["trusted_base"] += ["std::collections::BinaryHeap pops a greatest element (in the abstract model its order among equally named nodes is the parameter `sched`, theorems hold for every permutation; the literal model re-implements std's sift_up / sift_down_to_bottom and is compared exactly)",
                             "the `ignore` crate's override matcher (oracle input for rewrite, not modelled)",
+                            "props/C12/extract.py (starting set of copy's tree walk in commands/copy.rs)",
                             "props/C13/extract.py (Indexer.indexed element type)"]
     ctx.assumptions += [
         "tree ids are collision-free hashes of the serialised tree: equality of ids is modelled as equality of tree values (node_eqb)",
@@ -313,16 +317,20 @@ def run(ctx):
 
     # ------------------------------------------------------------ e2e
     def seeds(n): return [rng.randrange(1, 2 ** 40) for _ in range(n)]
-    nC, nG, nW, nR = ((80, 300, 300, 240) if th else (12, 40, 40, 32))
+    nC, nG, nW, nR = ((100, 300, 320, 240) if th else (14, 40, 48, 32))
     nC, nG, nW, nR = nC * wide, nG * wide, nW * wide, nR * wide
     elines = []
     for i, s in enumerate(seeds(nC)):
-        v = [1 | 2 | 4 | 16, 1 | 4 | 8, 2 | 4 | 8 | 16, 1 | 8, 4][i % 5] if i < 5 else rng.randrange(32)
+        # bit 32: the destination loses a pack that holds no root tree (bit 64: a tree pack) + repair_index, then
+        # everything is copied again (destination holds a PARTIAL closure incl. the root trees)
+        fixed = [1 | 2 | 4 | 16, 32 | 2 | 4, 32 | 64 | 2 | 1, 1 | 4 | 8, 32 | 8 | 16, 32 | 64 | 2 | 8, 2 | 4 | 8 | 16, 32, 1 | 8, 32 | 64 | 4]
+        v = fixed[i] if i < len(fixed) else rng.randrange(128)
         elines.append("C %d %d" % (s, v))
     for i, s in enumerate(seeds(nG)):
         elines.append("G %d %d %d" % (s, rng.choice([2, 2, 3, 4]), 1 if i % 5 == 4 else 0))
     for i, s in enumerate(seeds(nW)):
-        elines.append("W %d %d" % (s, [0, 2, 0, 1, 2][i % 5]))
+        # bit 4: one tree blob at several paths (directories of hard links) + anchored excludes below one occurrence
+        elines.append("W %d %d" % (s, [0, 4, 2, 6, 0, 1, 4, 2][i % 8]))
     for i, s in enumerate(seeds(nR)):
         elines.append("R %d %d" % (s, i % 8))
     if ctx.replay:
@@ -414,10 +422,11 @@ def run(ctx):
             if m in "WR" and len(segs) > 1:
                 tie_modifier(m, ln, segs[1:], wr_jobs)
             d = kv(out)
-            for k_ in ("coll", "coll_tree", "prepop", "excluded", "marked", "repaired", "tree_pack", "unsorted", "present_before", "needed", "needed_ok"):
+            for k_ in ("coll", "coll_tree", "prepop", "excluded", "marked", "repaired", "tree_pack", "unsorted", "present_before", "needed", "needed_ok", "damaged", "lost_tree_pack", "lost_blobs", "shared_dirs"):
                 if k_ in d and d[k_].isdigit():
                     hist["%s_%s" % (m, k_)] = hist.get("%s_%s" % (m, k_), 0) + int(d[k_])
-            if m == "C" and int(d.get("present_before", 0)) + int(d.get("coll", 0)) + int(d.get("coll_tree", 0)) > 0: nontriv.add(ln)
+            if m == "C" and int(d.get("present_before", 0)) + int(d.get("coll", 0)) + int(d.get("coll_tree", 0)) + int(d.get("damaged", 0)) > 0: nontriv.add(ln)
+            if m == "W" and int(d.get("shared_dirs", 0)) > 1 and "src/s" in d.get("globs", ""): hist["W_anchored_exclude_below_shared_tree"] = hist.get("W_anchored_exclude_below_shared_tree", 0) + 1
             if m == "W" and int(d.get("excluded", 0)) > 0: nontriv.add(ln)
             if m == "R" and int(d.get("damaged", 0)) > 0: nontriv.add(ln)
             if not out.startswith("ok"):
@@ -463,7 +472,7 @@ def run(ctx):
                 if not good:
                     mism.append((ln, o[:300], "%s model differs from the tree the implementation wrote (%s)" % (md, "no new tree" if new is None else "new tree")))
     cov.update({"evaluations": len(mcases) + len(elines), "distinct_nontrivial": len(nontriv),
-                "rule": "M: k in 0..6 hand-built trees over a small name pool incl. pairs whose order flips under escaping (overlapping names; file/dir/symlink/fifo under one name; mtimes from 1, 2, 4 or 9 values incl. None; depth <= 3; a tree merged with itself; 12% with unsorted levels for the literal loop model) x cmp in {mtime, tag, always-Equal, dirs-first}; non-trivial = some name occurs in two inputs.  e2e: C copy (src/dst with different key, compression, pack sizes 1 B..400 kB, two overlapping copy runs, optional pre-populated destination, optional data blob = empty tree blob and data blob = stored non-empty tree blob), G merge_snapshots of 2..4 real backups with clashing names/types and 3 mtime values, W rewrite with 0..3 exclude globs (literal path, bare name, prefix*, path/*), R repair_snapshots on the intact repository and after removing one data or tree pack + repair_index; non-trivial = collision/pre-populated, clash, something excluded, something damaged",
+                "rule": "M: k in 0..6 hand-built trees over a small name pool incl. pairs whose order flips under escaping (overlapping names; file/dir/symlink/fifo under one name; mtimes from 1, 2, 4 or 9 values incl. None; depth <= 3; a tree merged with itself; 12% with unsorted levels for the literal loop model) x cmp in {mtime, tag, always-Equal, dirs-first}; non-trivial = some name occurs in two inputs.  e2e: C copy (src/dst with different key, compression, pack sizes 1 B..400 kB, two overlapping copy runs, optional pre-populated destination, optional third run after the destination lost a data or non-root tree pack + repair_index (partial closure under present root trees), optional data blob = empty tree blob and data blob = stored non-empty tree blob), G merge_snapshots of 2..4 real backups with clashing names/types and 3 mtime values, W rewrite with 0..3 exclude globs (literal path, bare name, prefix*, path/*; 3 of 8 cases: directories of hard links sharing one tree blob at 5 paths with anchored excludes below one or two occurrences), R repair_snapshots on the intact repository and after removing one data or tree pack + repair_index; non-trivial = collision/pre-populated, clash, something excluded, something damaged",
                 "samples": samples, "distribution": hist,
                 "traces_validated_against_impl": len(mcases) + len(glines) + len(wr_jobs),
                 "disagreements_checked": len(mism) + len(viol), "model_impl_mismatches": len(mism), "oracle_violations": len(viol)})
